@@ -26,15 +26,27 @@ func TestAll(t *testing.T) { vh.RunAll(t) }
 
 var idxRe = regexp.MustCompile(`\[\d+\]`)
 
+// overPrecise is set by classify: the plan supplies a fixed amount finer than
+// its presented precision (the recorded C04 finding: such documents do not
+// recalculate to the same figures, and Invert recalculates).
 func classify(p docgen.Plan, out *billrun.Outcome, o *vh.Obs) bool {
+	_, ok := classify2(p, out, o)
+	return ok
+}
+
+func classify2(p docgen.Plan, out *billrun.Outcome, o *vh.Obs) (over bool, ok bool) {
 	ref, err := refcalc.Calculate(p, out.Env, out.Rows)
 	if err != nil {
-		return true
+		return false, true
+	}
+	over = refcalc.OverPreciseFixed(p, out.Env.C, ref.Prices)
+	if over {
+		o.Class("over-precise-fixed-amount")
 	}
 	if ref.Stats.OutOfDomain {
 		o.Class("outside-2^52-domain")
 		o.Discard()
-		return false
+		return over, false
 	}
 	rows := len(p.Lines) + len(p.Discounts) + len(p.Charges)
 	if ref.Stats.Roundings > 0 && rows >= 2 {
@@ -47,7 +59,7 @@ func classify(p docgen.Plan, out *billrun.Outcome, o *vh.Obs) bool {
 		o.Class("tie")
 	}
 	o.Class("rule-" + out.Env.Rule)
-	return true
+	return over, true
 }
 
 // numeric reports whether the path holds an amount whose sign flips under negation.
@@ -97,8 +109,15 @@ func judgeInvert(p docgen.Plan, o *vh.Obs) {
 		o.Discard()
 		return
 	}
-	if !classify(p, orig, o) {
+	over, okc := classify2(p, orig, o)
+	if !okc {
 		return
+	}
+	sigOf := func(s string) string {
+		if over {
+			return "invert:over-precise-fixed-amount"
+		}
+		return s
 	}
 	for _, l := range p.Lines {
 		for _, a := range append(append([]docgen.LineAdj{}, l.Discounts...), l.Charges...) {
@@ -114,7 +133,7 @@ func judgeInvert(p docgen.Plan, o *vh.Obs) {
 		o.Class("totals-rounding")
 	}
 	if err := inv.Invert(); err != nil {
-		o.Failf("invert:error", "Invert() failed: %v", err)
+		o.Failf(sigOf("invert:error"), "Invert() failed: %v", err)
 		return
 	}
 	inverted, err := billrun.FiguresOf(p, obj)
@@ -138,7 +157,7 @@ func judgeInvert(p docgen.Plan, o *vh.Obs) {
 		gd, _ := ratref.ParseDec(got)
 		wd, _ := ratref.ParseDec(want)
 		if gd.Units == nil || gd.Units.Cmp(wd.Units) != 0 || gd.Exp != wd.Exp {
-			o.Failf("invert:not-negated:"+idxRe.ReplaceAllString(path, "[]"), "%s = %s in the original, %s after Invert() (expected %s)", path, v, got, want)
+			o.Failf(sigOf("invert:not-negated:"+idxRe.ReplaceAllString(path, "[]")), "%s = %s in the original, %s after Invert() (expected %s)", path, v, got, want)
 			return
 		}
 	}
@@ -152,7 +171,7 @@ func judgeInvert(p docgen.Plan, o *vh.Obs) {
 	}
 	// twice restores the original
 	if err := inv.Invert(); err != nil {
-		o.Failf("invert:second-error", "second Invert() failed: %v", err)
+		o.Failf(sigOf("invert:second-error"), "second Invert() failed: %v", err)
 		return
 	}
 	twice, err := billrun.FiguresOf(p, obj)
@@ -168,7 +187,7 @@ func judgeInvert(p docgen.Plan, o *vh.Obs) {
 		gd, e1 := ratref.ParseDec(got)
 		wd, e2 := ratref.ParseDec(v)
 		if e1 != nil || e2 != nil || gd.Units.Cmp(wd.Units) != 0 || gd.Exp != wd.Exp {
-			o.Failf("invert:twice:"+idxRe.ReplaceAllString(path, "[]"), "%s = %s in the original, %s after inverting twice", path, v, got)
+			o.Failf(sigOf("invert:twice:"+idxRe.ReplaceAllString(path, "[]")), "%s = %s in the original, %s after inverting twice", path, v, got)
 			return
 		}
 	}
